@@ -35,7 +35,7 @@ ASSUMPTIONS = [
     "the evaluation namespace provides Fraction deque OrderedDict Counter defaultdict ChainMap",
     "placeholders: list [...], dict {...}, set #{...}, frozenset (frozenset #{...}), deque (deque [...]), "
     "others ...; the generic ... is accepted everywhere",
-    "termination bound: hy-repr entries <= 4*size+16 (size = nodes of the value with shared nodes expanded)",
+    "termination bound: hy-repr entries <= 8*size+64 (size = nodes of the value with shared nodes expanded)",
 ]
 MANIFEST = {
     "text": "Randomly generated nested values over exactly the listed types (hostile floats, strings, bytes; shared and self-referential containers) are printed with hy.repr, read, evaluated and compared with the original by NaN-aware typed deep equality; self-referential values are compared textually with an acyclic twin whose back-references are objects with a registered placeholder printer; every print runs under a logical bound on hy-repr entries. Exploration: held on the values generated, nothing beyond.",
@@ -201,7 +201,7 @@ def oracle(st, ir):
     """-> (why or None, events, tags)"""
     hy = st["hy"]
     tags = []
-    limit = 4 * expanded_size(ir) + 16
+    limit = 8 * expanded_size(ir) + 64     # generous: range values already reach 4x
     x = G.build(ir)
     text, why = hy_repr_bounded(st, x, limit)
     events = st["mon"].count
